@@ -1,11 +1,8 @@
 package engine
 
-type QueryStep struct{}
-type QueryCtx struct{}
 type ICAWorld struct{}
 type ICAEvent struct{}
 type ICAWorldCfg struct{}
 
-func (w *World) execQuery(st *Step) {}
 func (w *World) execICA(st *Step)   {}
 func replayICATrace(tr *Trace, ck Checker) (*World, error) { return nil, nil }
